@@ -53,6 +53,8 @@ fn target_ptr(i: usize) -> FuncPtr {
 }
 
 static PANICS: AtomicUsize = AtomicUsize::new(0);
+/// bytes of an entry changed under a W^X policy that no later flush request covers
+static WX_UNFLUSHED: AtomicUsize = AtomicUsize::new(0);
 
 fn gen_script(r: &mut Rng) -> Vec<String> {
     let mut ops: Vec<String> = Vec::new();
@@ -75,7 +77,7 @@ fn gen_script(r: &mut Rng) -> Vec<String> {
                 0 => format!("S{}", t),
                 1 => format!("SF{}", t),
                 2 => "Z".to_string(),
-                3 => format!("M{}", t),
+                3 => if r.chance(1, 2) { format!("M{}", t) } else { format!("W{}", t) },
                 _ => format!("A{}", t),
             }),
             10 => ops.push("U".to_string()),
@@ -123,6 +125,32 @@ fn run_body(inj: &mut InjectorPP, ops: &[String]) {
                 inj.when_called(target_ptr(t)).will_execute_raw(shadow::func!(fn (raw_fake)(i32) -> i32));
             }));
             shim::fail_next_mprotects(0);
+            if let Err(e) = r {
+                std::panic::resume_unwind(e);
+            }
+        } else if op.starts_with("W") {
+            // a W^X policy: memory writable and executable at once is refused with EACCES, anything else
+            // is allowed.  Whatever the library then does, every byte of the entry it changed must be
+            // covered by a flush request issued afterwards
+            let entry = target(t).1;
+            let before = unsafe { arena::read(entry, 16) };
+            shim::deny_wx(true);
+            shim::start_log();
+            let r = std::panic::catch_unwind(std::panic::AssertUnwindSafe(|| {
+                inj.when_called(target_ptr(t)).will_execute_raw(shadow::func!(fn (raw_fake)(i32) -> i32));
+            }));
+            let log = shim::stop_log();
+            shim::deny_wx(false);
+            let after = unsafe { arena::read(entry, 16) };
+            for i in 0..16usize {
+                if before[i] != after[i] {
+                    let a = entry + i;
+                    let covered = log.iter().any(|e| matches!(e, shim::Event::Flush { lo, hi, .. } if *lo <= a && a < *hi));
+                    if !covered {
+                        WX_UNFLUSHED.fetch_add(1, Ordering::SeqCst);
+                    }
+                }
+            }
             if let Err(e) = r {
                 std::panic::resume_unwind(e);
             }
@@ -197,7 +225,7 @@ pub fn run(a: &Args, out: &mut impl Write) {
                 });
                 let relock = matches!(rx.recv_timeout(std::time::Duration::from_secs(5)), Ok(true));
                 line.push_str(&format!(
-                    " ; L {} | body={} bodypanics={} exit={} exitpanics={} restored={} calls={} relock={} owned={}",
+                    " ; L {} | body={} bodypanics={} exit={} exitpanics={} restored={} calls={} relock={} owned={} wxunflushed={}",
                     if ops.is_empty() { "-".to_string() } else { ops.join(",") },
                     p1 - p0,
                     p1 - p0,
@@ -206,7 +234,8 @@ pub fn run(a: &Args, out: &mut impl Write) {
                     restored as u8,
                     calls_ok as u8,
                     relock as u8,
-                    shim::owned().len() as i64 - owned0 as i64
+                    shim::owned().len() as i64 - owned0 as i64,
+                    WX_UNFLUSHED.swap(0, Ordering::SeqCst)
                 ));
                 w.write_all(line.as_bytes()).unwrap();
                 line.clear();
